@@ -7,6 +7,8 @@ use crate::report::Rep;
 use crate::world::*;
 
 pub fn run(rep: &mut Rep) {
+    // QoS 1 / QoS 2 exchanges outstanding together under identifiers that a lossy correlation key would confuse
+    super::c05::identifier_pairs(rep, &[Kind::Pub1, Kind::Pub2]);
     // 1. structured sweep: QoS x every legal reason code x form x delayed polling x companion traffic
     let mut idx = 0u64;
     for qos in [0u8, 1, 2] {
